@@ -202,6 +202,7 @@ int main(int argc, char** argv) {
   const long maxbits = vt::argl(argc, argv, "--maxbits", 2048);
   const int serde_pct = (int)vt::argl(argc, argv, "--serde", 12);
   const long fpp = vt::argl(argc, argv, "--fpp", 4);
+  const int scenario_pct = (int)vt::argl(argc, argv, "--scenario", 2);   // % of steps that run the scripted multi-view interleaving
   vt::open_out(vt::arg(argc, argv, "--out", "/dev/stdout"));
   vt::Rng g(seed);
   static const long SIZES[] = {1, 63, 64, 65, 100, 127, 128, 129, 200, 320, 500, 777, 1000, 1024, 1500, 2000, 2048};
@@ -308,6 +309,94 @@ int main(int argc, char** argv) {
       else do_wrap(m, f, true);
     };
 
+    // ---- single operations (also used by the scripted multi-view interleaving below) --------------------------
+    // update / query_and_update / query of one item through slot f.  A plain update() is also legal through a
+    // STALE view (logged with "stale":true; the contract specifies its effect on the region only).
+    auto ev_item = [&](int f, Op o, const Item& it) {
+      Slot& S = w.s[f]; bloom_filter& x = *S.f;
+      if (o != QRY) { if (w.recent.size() < 64) w.recent.push_back(it); else w.recent[g.below(64)] = it; }
+      std::string bytes; const bool real = canon(it, bytes);
+      bool ans = false, thrown = false;
+      try { ans = call(x, o, it); } catch (const std::exception&) { thrown = true; }
+      if (!real) {
+        Ev e("NullItem"); common(e, w, f).str("op", o == UPD ? "update" : o == QAU ? "qau" : "query").str("type", TYPES[it.type])
+          .str("out", thrown ? "throw" : "ok").b("ans", ans).b("empty", x.is_empty()).emit();
+        return;
+      }
+      Ev e(o == UPD ? "Update" : o == QAU ? "QueryUpdate" : "Query");
+      common(e, w, f).str("type", TYPES[it.type]).il("idx", ref_idx(bytes, S.c)).str("out", thrown ? "throw" : "ok");
+      if (o != UPD) e.b("ans", ans);
+      if (!S.fresh) e.b("stale", true);
+      e.b("empty", x.is_empty()).emit();
+      if (o != QRY && !thrown) stale_siblings(w, f);
+    };
+    auto draw_item = [&](Op o) -> Item {
+      // queries aim at items offered before (through any filter of the segment) about half of the time
+      const bool again = !w.recent.empty() && g.chance(o == QRY ? 50 : o == QAU ? 30 : 10);
+      return again ? w.recent[g.below(w.recent.size())] : draw(g, w.universe);
+    };
+    auto real_item = [&]() -> Item { Item it; std::string b; do { it = draw(g, w.universe); } while (!canon(it, b)); return it; };
+    auto ev_bits_used = [&](int f) {
+      bloom_filter& x = *w.s[f].f;
+      const uint64_t nb = x.get_bits_used();
+      Ev e("BitsUsed"); common(e, w, f).i("n", nb < (1ULL << 30) ? (long long)nb : -1).b("empty", x.is_empty()).emit();
+    };
+    auto ev_obs = [&](int f) {
+      Ev e("Obs"); common(e, w, f).raw("r", proj(*w.s[f].f));
+      if (w.s[f].at != 0) e.il("membits", membits(w, w.s[f].at));
+      e.emit();
+    };
+    auto ev_setop = [&](int f, int gi, bool uni) {
+      bloom_filter& x = *w.s[f].f;
+      bool thrown = false;
+      try { if (uni) x.union_with(*w.s[gi].f); else x.intersect(*w.s[gi].f); } catch (const std::exception&) { thrown = true; }
+      Ev e(uni ? "Union" : "Intersect"); common(e, w, f).i("g", gi).str("out", thrown ? "throw" : "ok")
+        .b("compatible", x.is_compatible(*w.s[gi].f)).b("empty", x.is_empty()).emit();
+      if (!thrown) stale_siblings(w, f);
+    };
+    auto ev_invreset = [&](int f, bool inv) {
+      bloom_filter& x = *w.s[f].f;
+      bool thrown = false;
+      try { if (inv) x.invert(); else x.reset(); } catch (const std::exception&) { thrown = true; }
+      Ev e(inv ? "Invert" : "Reset"); common(e, w, f).str("out", thrown ? "throw" : "ok").b("empty", x.is_empty()).emit();
+      if (!thrown) stale_siblings(w, f);
+    };
+    // scripted interleaving over one region (all steps are ordinary logged events):
+    //   A = a writable view of m, dirty from plain updates;  B = writable_wrap(m) stores a clean count (reset / invert /
+    //   query_and_update / union / intersect, sometimes after a recount);  A - now stale - keeps inserting with plain
+    //   update();  C = wrap / writable_wrap / deserialize of m afterwards must see everything: query, bits_used, is_empty.
+    auto scenario = [&]() {
+      const int m = (int)g.range(1, NM);
+      int a = 0;
+      for (int h = 1; h <= NF; h++) if (w.s[h].f && w.s[h].at == m && w.s[h].fresh && !w.s[h].f->is_read_only()) a = h;
+      if (a == 0) { a = (int)g.range(1, NF); if (w.m[m].live && !decode(w.m[m].buf.data(), w.m[m].buf.size()).empty && g.chance(50)) do_wrap(m, a, true); else make_initmem(a, m); }
+      if (!w.s[a].f || w.s[a].at != m) return;
+      const int b = a % NF + 1, c = b % NF + 1;
+      std::vector<Item> mine;
+      for (int k = (int)g.range(1, 3); k > 0; k--) { mine.push_back(real_item()); ev_item(a, UPD, mine.back()); }   // A dirty
+      if (g.chance(15)) ev_bits_used(a);                                                           // (sometimes clean again)
+      do_wrap(m, b, true);
+      if (!w.s[b].f || w.s[b].at != m) return;
+      if (g.chance(30)) ev_bits_used(b);
+      switch (g.below(6)) {
+        case 0: case 1: ev_invreset(b, false); mine.clear(); break;
+        case 2: ev_invreset(b, true); mine.clear(); break;
+        case 3: mine.push_back(real_item()); ev_item(b, QAU, mine.back()); break;
+        case 4: ev_setop(b, b, true); break;
+        default: ev_setop(b, b, false); break;
+      }
+      for (int k = (int)g.range(1, 4); k > 0; k--) { mine.push_back(real_item()); ev_item(a, UPD, mine.back()); }   // stale A keeps inserting
+      if (g.chance(25)) { mine.push_back(real_item()); ev_item(b, UPD, mine.back()); }                               // so may stale B
+      const int how = (int)g.below(3);
+      if (how == 0) do_deser(m, c); else do_wrap(m, c, how == 1);
+      if (!w.s[c].f) return;
+      for (int k = 0; k < 3; k++) switch (g.below(4)) {
+        case 0: ev_bits_used(c); break;
+        case 1: ev_obs(c); break;
+        default: if (!mine.empty()) ev_item(c, QRY, mine[g.below(mine.size())]); else ev_item(c, QRY, draw_item(QRY)); break;
+      }
+    };
+
     make_new(1);
     if (g.chance(70)) make_initmem(2, 1);
 
@@ -315,9 +404,11 @@ int main(int argc, char** argv) {
       const int f = (int)g.range(1, NF);
       Slot& S = w.s[f];
       if (!S.f) { create(f); continue; }
-      if (!S.fresh) {                       // another view wrote to this view's region: re-wrap (or drop) it
-        const int m = S.at; const bool ro = S.f->is_read_only();
-        if (g.chance(25)) drop(w, f); else do_wrap(m, f, g.chance(30) ? ro : !ro);
+      if (g.chance(scenario_pct)) { scenario(); continue; }
+      if (!S.fresh) {                       // another view wrote to this view's region: plain update() through the
+        const int m = S.at; const bool ro = S.f->is_read_only();   // stale view, or re-wrap it, or drop it
+        if (g.chance(45)) { Item it; std::string b; do { it = draw_item(UPD); } while (!canon(it, b)); ev_item(f, UPD, it); }
+        else if (g.chance(25)) drop(w, f); else do_wrap(m, f, g.chance(30) ? ro : !ro);
         continue;
       }
       bloom_filter& x = *S.f;
@@ -356,45 +447,17 @@ int main(int argc, char** argv) {
       op = (int)g.below(100);
       if (op < 66) {
         const Op o = op < 27 ? UPD : op < 39 ? QAU : QRY;
-        // queries aim at items offered before (through any filter of the segment) about half of the time
-        const bool again = !w.recent.empty() && g.chance(o == QRY ? 50 : o == QAU ? 30 : 10);
-        const Item it = again ? w.recent[g.below(w.recent.size())] : draw(g, w.universe);
-        if (o != QRY) { if (w.recent.size() < 64) w.recent.push_back(it); else w.recent[g.below(64)] = it; }
-        std::string bytes; const bool real = canon(it, bytes);
-        bool ans = false, thrown = false;
-        try { ans = call(x, o, it); } catch (const std::exception&) { thrown = true; }
-        if (!real) {
-          Ev e("NullItem"); common(e, w, f).str("op", o == UPD ? "update" : o == QAU ? "qau" : "query").str("type", TYPES[it.type])
-            .str("out", thrown ? "throw" : "ok").b("ans", ans).b("empty", x.is_empty()).emit();
-          continue;
-        }
-        Ev e(o == UPD ? "Update" : o == QAU ? "QueryUpdate" : "Query");
-        common(e, w, f).str("type", TYPES[it.type]).il("idx", ref_idx(bytes, S.c)).str("out", thrown ? "throw" : "ok");
-        if (o != UPD) e.b("ans", ans);
-        e.b("empty", x.is_empty()).emit();
-        if (o != QRY && !thrown) stale_siblings(w, f);
+        ev_item(f, o, draw_item(o));
       } else if (op < 72) {
-        const uint64_t nb = x.get_bits_used();
-        Ev e("BitsUsed"); common(e, w, f).i("n", nb < (1ULL << 30) ? (long long)nb : -1).b("empty", x.is_empty()).emit();
+        ev_bits_used(f);
       } else if (op < 79) {
-        Ev e("Obs"); common(e, w, f).raw("r", proj(x));
-        if (S.at != 0) e.il("membits", membits(w, S.at));
-        e.emit();
+        ev_obs(f);
       } else if (op < 88) {
         int gi = (int)g.range(1, NF);
         if (!w.s[gi].f || !w.s[gi].fresh) continue;
-        const bool uni = op < 84;
-        bool thrown = false;
-        try { if (uni) x.union_with(*w.s[gi].f); else x.intersect(*w.s[gi].f); } catch (const std::exception&) { thrown = true; }
-        Ev e(uni ? "Union" : "Intersect"); common(e, w, f).i("g", gi).str("out", thrown ? "throw" : "ok")
-          .b("compatible", x.is_compatible(*w.s[gi].f)).b("empty", x.is_empty()).emit();
-        if (!thrown) stale_siblings(w, f);
+        ev_setop(f, gi, op < 84);
       } else if (op < 91) {
-        const bool inv = op < 89 || (op == 89 && g.chance(50));
-        bool thrown = false;
-        try { if (inv) x.invert(); else x.reset(); } catch (const std::exception&) { thrown = true; }
-        Ev e(inv ? "Invert" : "Reset"); common(e, w, f).str("out", thrown ? "throw" : "ok").b("empty", x.is_empty()).emit();
-        if (!thrown) stale_siblings(w, f);
+        ev_invreset(f, op < 89 || (op == 89 && g.chance(50)));
       } else if (op < 96) {
         int t = (int)g.range(1, NF); if (t == f) continue;
         const bool mv = op >= 94;
